@@ -1,11 +1,25 @@
-(* Model of the printing helpers (scheduler/base/scheduler_util.py::str_cutoff and the table
-   layout of Scheduler.__str__).  Strings are lists of code points.  No proofs here. *)
+(* Model of the printing code: scheduler/base/scheduler_util.py::str_cutoff,
+   scheduler/base/job_util.py::prettify_timedelta, BaseJob._str / __str__ and the table layout of
+   Scheduler.__str__ (threading and asyncio).  Strings are lists of code points.
+
+   What CPython itself renders (str(datetime), str(timedelta), tzname(), str(float), format(w,
+   '.3g'), the attributes of callables) enters as already-rendered strings: those are CPython's
+   functions, not the library's.  The library's own logic is modelled: ONCE vs type name, name vs
+   alias, the argument hint, the [:19] slice, the sign/cut of "due in", attempts "a/max|inf",
+   abbreviation, alignment, padding, the optional tzinfo column, row order and the job count.
+   No proofs here. *)
 From Coq Require Import ZArith List Bool.
-From Sv Require Import PyTime.
+From Sv Require Import PyTime Timer.
 Import ListNotations.
 Open Scope Z_scope.
 
 Definition HASH : Z := 35.   (* '#' *)
+Definition SP : Z := 32.
+Definition NL : Z := 10.
+Definition DASH : Z := 45.
+Definition COMMA : Z := 44.
+Definition DOT : Z := 46.
+Definition SLASH : Z := 47.
 
 (* str_cutoff(string, max_length, cut_tail) after the fix *)
 Definition m_str_cutoff (s : pystr) (w : Z) (tail : bool) : res pystr :=
@@ -14,3 +28,157 @@ Definition m_str_cutoff (s : pystr) (w : Z) (tail : bool) : res pystr :=
     Ok (if tail then firstn (Z.to_nat (w - 1)) s ++ [HASH]
         else HASH :: skipn (length s - Z.to_nat (w - 1)) s)
   else Ok s.
+(* the widths used by the tables are positive constants *)
+Definition cut (s : pystr) (w : nat) (tail : bool) : pystr :=
+  match m_str_cutoff s (Z.of_nat w) tail with Ok r => r | Err _ => s end.
+
+(* s.split(c)[0] *)
+Fixpoint take_until (c : Z) (s : pystr) : pystr :=
+  match s with
+  | [] => []
+  | x :: r => if x =? c then [] else x :: take_until c r
+  end.
+
+(* prettify_timedelta: [abs_str] = str(abs(timedelta)) as rendered by CPython *)
+Definition prettify (neg : bool) (abs_str : pystr) : pystr :=
+  let res := if neg then DASH :: abs_str else abs_str in
+  take_until DOT (take_until COMMA res).
+
+(* decimal rendering of a non-negative integer *)
+Fixpoint digits (fuel : nat) (n : Z) : pystr :=
+  match fuel with
+  | O => []
+  | S f => if n <? 10 then [48 + n] else digits f (n / 10) ++ [48 + n mod 10]
+  end.
+Definition dec (n : Z) : pystr := digits 40 n.
+
+Definition s_inf : pystr := [105; 110; 102].                       (* "inf" *)
+Definition s_none : pystr := [78; 111; 110; 101].                   (* "None" *)
+Definition s_once : pystr := [79; 78; 67; 69].                      (* "ONCE" *)
+Definition type_name (ty : jobtype) : pystr :=
+  match ty with
+  | CYCLIC => [67; 89; 67; 76; 73; 67]
+  | MINUTELY => [77; 73; 78; 85; 84; 69; 76; 89]
+  | HOURLY => [72; 79; 85; 82; 76; 89]
+  | DAILY => [68; 65; 73; 76; 89]
+  | WEEKLY => [87; 69; 69; 75; 76; 89]
+  end.
+
+(* what is known about a job when it is printed *)
+Record jobview := mkView {
+  v_type : jobtype;
+  v_max : Z;                       (* max_attempts *)
+  v_alias : option pystr;
+  v_qualname : option pystr;       (* handle.__qualname__ if it exists *)
+  v_typename : pystr;              (* type(handle).__qualname__ *)
+  v_code : option bool;            (* has __code__: Some (co_nlocals <> 0) *)
+  v_dtstr : pystr;                 (* str(job.datetime) *)
+  v_tzname : option pystr;         (* job.datetime.tzname() *)
+  v_neg : bool; v_absstr : pystr;  (* sign and str(abs(..)) of the due-in timedelta *)
+  v_attempts : Z;
+  v_weight : pystr;                (* f"{job.weight}" *)
+  v_weight3g : pystr;              (* f"{job.weight:.3g}" *)
+  v_due : Z                        (* sort key: the due instant *)
+}.
+
+(* BaseJob._str *)
+Definition f_args (v : jobview) : pystr :=
+  match v_alias v with
+  | Some _ => []
+  | None => match v_code v with
+            | Some true => [40; 46; 46; 41]       (* "(..)" *)
+            | Some false => [40; 41]               (* "()" *)
+            | None => [40; 63; 41]                 (* "(?)" *)
+            end
+  end.
+Definition handle_name (v : jobview) : pystr :=
+  match v_alias v with
+  | Some a => a
+  | None => match v_qualname v with Some q => q | None => v_typename v end
+  end.
+Definition row_type (v : jobview) : pystr := if v_max v =? 1 then s_once else type_name (v_type v).
+Definition row_dt (v : jobview) : pystr := firstn 19 (v_dtstr v).
+Definition row_tz (v : jobview) : pystr := match v_tzname v with Some n => n | None => s_none end.  (* str(None) *)
+Definition row_in (v : jobview) : pystr := prettify (v_neg v) (v_absstr v).
+Definition row_max (v : jobview) : pystr := if v_max v =? 0 then s_inf else dec (v_max v).
+
+(* Job.__str__ (threading: with weight; asyncio: without) *)
+Definition lit (l : list Z) : pystr := l.
+Definition job_str (with_weight : bool) (v : jobview) : pystr :=
+  row_type v ++ [COMMA; SP] ++ handle_name v ++ f_args v ++
+  lit [COMMA; SP; 97; 116; 61] ++ row_dt v ++                     (* ", at=" *)
+  lit [COMMA; SP; 116; 122; 61] ++ row_tz v ++                    (* ", tz=" *)
+  lit [COMMA; SP; 105; 110; 61] ++ row_in v ++                    (* ", in=" *)
+  lit [COMMA; SP; HASH] ++ dec (v_attempts v) ++ [SLASH] ++ row_max v ++
+  (if with_weight then lit [COMMA; SP; 119; 61] ++ v_weight3g v else []).   (* ", w=" *)
+
+(* ---- table layout -------------------------------------------------------------------------------- *)
+Fixpoint spaces (n : nat) : pystr := match n with O => [] | S k => SP :: spaces k end.
+Fixpoint dashes (n : nat) : pystr := match n with O => [] | S k => DASH :: dashes k end.
+(* "{:<w}" / "{:>w}": pads, never truncates *)
+Definition pad (left : bool) (w : nat) (s : pystr) : pystr :=
+  if left then s ++ spaces (w - length s) else spaces (w - length s) ++ s.
+
+(* columns: (left aligned?, width) *)
+Definition col := (bool * nat)%type.
+Definition COLS_THR : list col := [(true, 8); (true, 16); (true, 19); (true, 12); (false, 9); (false, 13); (false, 6)]%nat.
+Definition COLS_AIO : list col := [(true, 8); (true, 16); (true, 19); (true, 12); (false, 9); (false, 13)]%nat.
+(* without a scheduler timezone the tzinfo column (index 3) is dropped from the format *)
+Definition drop_tz {A} (l : list A) : list A := firstn 3 l ++ skipn 4 l.
+
+Fixpoint fmt_cells (cols : list col) (cells : list pystr) : list pystr :=
+  match cols, cells with
+  | (l, w) :: cr, c :: r => pad l w c :: fmt_cells cr r
+  | _, _ => []
+  end.
+Fixpoint join_sp (l : list pystr) : pystr :=
+  match l with
+  | [] => []
+  | [x] => x
+  | x :: r => x ++ SP :: join_sp r
+  end.
+Definition fmt_row (cols : list col) (cells : list pystr) : pystr := join_sp (fmt_cells cols cells) ++ [NL].
+
+Definition names_thr : list pystr :=
+  [[116; 121; 112; 101];                                                         (* type *)
+   [102; 117; 110; 99; 116; 105; 111; 110; 32; 47; 32; 97; 108; 105; 97; 115];   (* function / alias *)
+   [100; 117; 101; 32; 97; 116];                                                 (* due at *)
+   [116; 122; 105; 110; 102; 111];                                               (* tzinfo *)
+   [100; 117; 101; 32; 105; 110];                                                (* due in *)
+   [97; 116; 116; 101; 109; 112; 116; 115];                                      (* attempts *)
+   [119; 101; 105; 103; 104; 116]].                                              (* weight *)
+Definition names_aio : list pystr := firstn 6 names_thr.
+
+(* the entries of one row (Scheduler.__str__) *)
+Definition row_cells (with_weight : bool) (v : jobview) : list pystr :=
+  [row_type v;
+   cut (handle_name v ++ f_args v) 16 false;
+   row_dt v;
+   cut (match v_tzname v with Some n => n | None => s_none end) 12 false;
+   cut (row_in v) 9 true;
+   cut (dec (v_attempts v) ++ [SLASH] ++ row_max v) 13 true] ++
+  (if with_weight then [cut (v_weight v) 6 true] else []).
+
+(* sorted(self.jobs): ascending due time, stable *)
+Fixpoint ins_due (v : jobview) (l : list jobview) : list jobview :=
+  match l with
+  | [] => [v]
+  | y :: t => if v_due y <? v_due v then y :: ins_due v t else v :: l
+  end.
+Definition sort_due (l : list jobview) : list jobview := fold_right ins_due [] l.
+
+Definition concat_str (l : list pystr) : pystr := fold_right (fun a b => a ++ b) [] l.
+
+(* heading + table; [has_tz] = the scheduler has a timezone; [heading] is the meta line up to and
+   including "#jobs=" (it contains CPython-rendered names), the count is appended here *)
+Definition table (with_weight : bool) (has_tz : bool) (heading : pystr) (jobs : list jobview) : pystr :=
+  let cols := if with_weight then COLS_THR else COLS_AIO in
+  let names := if with_weight then names_thr else names_aio in
+  let cols' := if has_tz then cols else drop_tz cols in
+  (* NB: str.format ignores surplus arguments: all entries are passed, the dropped column's
+     placeholder index is simply absent *)
+  let pick (cells : list pystr) := if has_tz then cells else drop_tz cells in
+  heading ++ dec (Z.of_nat (length jobs)) ++ [NL; NL] ++
+  fmt_row cols' (pick names) ++
+  fmt_row cols' (pick (map (fun c => dashes (snd c)) cols)) ++
+  concat_str (map (fun v => fmt_row cols' (pick (row_cells with_weight v))) (sort_due jobs)).
